@@ -52,6 +52,7 @@ class FnSpec:
         self.bind = kw.pop('bind', {})                   # {name: regex with one group}: `$name` in clauses / hints / anchors stands for the text the group
                                                          # captures in the normalised function text (names of locals are taken from the code, not assumed)
         self.guard = kw.pop('guard', None)               # contract for the body of a nested Drop guard (N14): dict(requires=[E], ensures=[E])
+        self.review_if_present = kw.pop('review_if_present', [])   # [E(label, descr, props)]: if this OPTIONAL item exists, these obligations cannot be decided by its contract (e.g. a new destructor call site): undecided for their properties
         self.optional = kw.pop('optional', False)     # item may be absent (e.g. an override of a trait default); then nothing to check             # emit inside the named group block (see Unit.groups)
         if kw:
             raise TypeError('unknown FnSpec args %s' % list(kw))
@@ -113,6 +114,7 @@ class Generated:
         self.lemmas = {}        # name -> (line_start, line_end, props)
         self.lost = []
         self.consts = set()
+        self.review = set()     # review obligations of optional items that are present: undecided for their properties
         self.stubbed = set()    # functions emitted as contract-only stubs (isolation): their obligations are undecided
         self.trusted = []
         self.cheats_outside_prelude = []
@@ -213,6 +215,8 @@ def generate(unit, repo, vacuity=False, falsify=False, stub_fns=None, drop_asser
                 for c in spec.hint_obligations:
                     g.obligations['%s::%s::hint.%s' % (unit.name, k0, c.label)] = dict(props=c.props or spec.props, fn=k0, kind='inherited postcondition (item absent: default applies)', expr=c.expr)
                 g.obligations['%s::%s::safety' % (unit.name, k0)] = dict(props=spec.props, fn=k0, kind='body safety (item absent)', expr='n/a')
+                for c in getattr(spec, 'review_if_present', []):
+                    g.obligations['%s::%s::review.%s' % (unit.name, k0, c.label)] = dict(props=c.props or spec.props, fn=k0, kind='review obligation (item absent: default applies)', expr=c.expr)
                 continue
             g.lost.append(str(e))
             continue
@@ -388,6 +392,10 @@ def generate(unit, repo, vacuity=False, falsify=False, stub_fns=None, drop_asser
                     g.obligations['%s::%s::guard.ens.%s' % (unit.name, key, c.label)] = dict(props=c.props or fprops, fn=key, kind='postcondition of the unwinding guard body', expr=c.expr)
             for c in spec.hint_obligations:
                 g.obligations['%s::%s::hint.%s' % (unit.name, key, c.label)] = dict(props=c.props or fprops, fn=key, kind='assertion in proof hint', expr=c.expr)
+            for c in getattr(spec, 'review_if_present', []):
+                rk = '%s::%s::review.%s' % (unit.name, key, c.label)
+                g.obligations[rk] = dict(props=c.props or fprops, fn=key, kind='review obligation (optional item PRESENT: no contract can decide it)', expr=c.expr)
+                g.review.add(rk)
             g.obligations['%s::%s::safety' % (unit.name, key)] = dict(
                 props=spec.safety_props.split() if spec.safety_props else fprops, fn=key, kind='body safety',
                 expr='callee preconditions, asserts/expect/unwrap (panic freedom), index bounds, arithmetic overflow, termination')
